@@ -56,7 +56,13 @@ META = dict(
          "extra fields, non-JSON field types), dataclasses, containers of them, plain types or nothing; the caller passes instances "
          "with fields left unset, dicts, lists, primitives - positionally, by keyword, omitted, through *rest / **extra - and the "
          "function records the canonical form of what it received on every attempt (oracle: every attempt receives what the "
-         "first one received, and the first one what was sent)",
+         "first one received, and the first one what was sent). "
+         "About 260 cases (7 %) of a quick run send the attempts through taskiq's real InMemoryBroker in its default mode (kick spawns "
+         "Receiver.callback as a task; the retry middleware re-sends from inside the failing attempt) instead of the scripted "
+         "one-after-the-other broker: coroutine-function bodies without a suspension point, bodies that really await (sleep(0), "
+         "timer, future), pool-thread functions, every other task-function shape / failure kind, broker options, bystander tasks, "
+         "most of them with no_result_on_retry off; there 'the final attempt's outcome is the stored result' is judged on what the "
+         "real InmemoryResultBackend holds for the task id once all spawned work has settled",
     trusted_base=["model: coq/theories/Retry.v + Labels.v + Base64.v (hand-written transcription of retry_middleware.on_error, the "
                   "NoResultError test in Receiver.callback, kicker re-send)",
                   "CPython str(float)/float(str) round trip (Section hypothesis float_roundtrip)",
@@ -67,7 +73,10 @@ META = dict(
                   "building blocks of retry_driver.py (task function shapes, bystander middlewares, listen-session wrapper) and "
                   "harness/cli_glue.py (real WorkerArgs.from_cli + start_listen with its imports replaced); the exception "
                   "builder of retry_driver.py (specs -> exception objects, ChildBackend / DropBroker for sub-tasks that never "
-                  "finish, the module global `time` of taskiq.task / taskiq.funcs bound to the virtual clock)"],
+                  "finish, the module global `time` of taskiq.task / taskiq.funcs bound to the virtual clock); the in-memory "
+                  "path of retry_driver.py (InMemScenario: subclass of InMemoryBroker whose kick notes the sender and calls the "
+                  "real kick, recording subclass of InmemoryResultBackend, attribution of events to deliveries by a context "
+                  "variable set around the real Receiver.callback / the message handed to the real run_task, the settle loop)"],
     assumptions=["label keys are distinct (Python dict); the labels the message is sent with hold values of the five primitive "
                  "types; max_retries and _retries, when present, are int / bool / [+-]digits str (otherwise int() raises: model "
                  "answer DCrash, compared by the correspondence, outside the theorems)"],
@@ -353,6 +362,111 @@ def exc_grid():
     return out
 
 
+# ------------------------------------------------------------------ the attempts travel through the real InMemoryBroker
+# (retry_driver's env["broker"] = "inmem").  The scripted broker delivers one message after the other; taskiq's own
+# InMemoryBroker (default mode, await_inplace=False) spawns Receiver.callback for a message the moment it is kicked - and the
+# retry middleware kicks the next attempt from INSIDE the failing attempt's run_task, before that attempt has saved its result.
+# Which attempt's set_result comes last decides what the backend holds in the end: "the final attempt's outcome is the stored
+# result" is judged there on what the real InmemoryResultBackend holds for the task id when all spawned work has settled.
+PAUSES = ["sleep0", "sleep0", "sleep0x3", "timer", "future"]
+# An on_error hook that really suspends and runs AFTER the retry middleware's re-send sits between the re-send and the failing
+# attempt's set_result: on the unchanged tree the re-sent attempt then overtakes it (see notes/C11.md, finding, not generated).
+MW_AFTER_INMEM = [k for k in MW_ANY if k != "async_err"]
+
+
+def gen_inmem_env(r):
+    env = {"broker": "inmem"}
+    fn = r.choice(["async"] * 5 + ["sync", "sync", "agen_dep", "gen_dep", "sync_gen_dep", "dep_fails"])
+    if fn != "async":
+        env["fn"] = fn
+    can_await = fn not in ("sync", "sync_gen_dep")
+    if can_await and r.random() < .35:
+        env["pause"] = r.choice(PAUSES)             # a body that really awaits; otherwise it finishes without a suspension
+    k = r.random()
+    if k < .12:
+        env["fail_by"] = "falsy"
+    elif k < .24 and can_await:
+        env["fail_by"] = "timeout"
+        env["timeout_label"] = r.choice(TIMEOUT_VALUES)
+    elif k < .3:
+        env["timeout_label"] = r.choice(TIMEOUT_VALUES)
+    elif k < .5:
+        env["fail_by"] = "exc"
+        env["exc"] = gen_exc_list(r)
+    if r.random() < .15:
+        env["nr"] = gen_nr(r)
+    if r.random() < .3:
+        env["propagate"] = False
+    if r.random() < .2:
+        env["validate"] = False
+    if r.random() < .3:
+        env["A"] = r.choice([1, 2, 10, 0])
+    if r.random() < .3:
+        env["pool"] = r.choice([1, 2])
+    if r.random() < .4:
+        env["startup"] = True
+    if r.random() < .35:
+        env["bystanders"] = r.choice([1, 2, 3])
+    elif r.random() < .4:
+        env["stored"] = r.choice([-1, 1, 2])       # max_stored_results (never together with bystanders: they would evict)
+    if r.random() < .4:
+        for pos, kinds in (("mw_before", MW_BEFORE_RETRY), ("mw_mid", MW_BEFORE_RETRY), ("mw_after", MW_AFTER_INMEM)):
+            n = r.choice([0, 0, 1, 1, 2])
+            if n:
+                env[pos] = [r.choice(kinds) for _ in range(n)]
+    if r.random() < .2:
+        env["retry_cls"] = "sub"
+    return env
+
+
+def gen_inmem_case(r):
+    c = gen_case(r)
+    if r.random() < .7:
+        # make sure the retry loop has something to do: enabled, a few failures first, room for them
+        c["labels"] = [kv for kv in c["labels"] if kstr(kv[0]) not in ("retry_on_error", "_retries")]
+        c["mw"]["label"] = True
+        if len(c["outs"]) == 1 and r.random() < .6:
+            c["outs"] = ["F"] * r.choice([1, 2, 3]) + c["outs"]
+        if r.random() < .5:
+            c["labels"] = [kv for kv in c["labels"] if kstr(kv[0]) != "max_retries"]
+            c["mw"]["count"] = r.choice([2, 3, 4, 6])
+    if r.random() < .65:
+        c["mw"]["nror"] = False                     # every attempt stores a result: the ORDER of the set_result calls matters
+    return with_env(c, gen_inmem_env(r))
+
+
+def inmem_grid():
+    """every single deviation of the in-memory path on the fail-fail-success situation with every attempt storing its result
+    and on one of four other situations - always run"""
+    def mk(outs, labels, count, label, nror):
+        return dict(ser="json", mw=dict(count=count, label=label, nror=nror), labels=labels, outs=outs, args=[1, "x"],
+                    kwargs={"kw": "v"}, guard=30)
+    on = [[K("max_retries"), {"t": "int", "v": "3"}], [K("retry_on_error"), {"t": "bool", "v": True}]]
+    ffs_all = mk(["F", "F", "S"], on, 2, False, False)
+    others = [mk(["F"], [[K("u"), {"t": "str", "v": K("user")}]], 4, True, False),
+              mk(["F", "S"], [[K("max_retries"), {"t": "str", "v": K("5")}], [K("retry_on_error"), {"t": "str", "v": K("True")}]], 1, False, False),
+              mk(["F", "F", "S"], on, 2, False, True),
+              mk(["F", "N"], on, 2, False, False)]
+    cancelled = {"k": "real", "how": "cancelled_task"}
+    envs = [{}] + [{"pause": p} for p in sorted(set(PAUSES))] + [{"fn": f} for f in FN_KINDS]
+    envs += [{"fn": "gen_dep", "pause": "sleep0"}, {"fn": "dep_fails", "pause": "timer"}, {"fn": "sync", "pool": 1},
+             {"fail_by": "falsy"}, {"fail_by": "timeout", "timeout_label": TIMEOUT_VALUES[0]},
+             {"fail_by": "timeout", "timeout_label": TIMEOUT_VALUES[1], "pause": "future"},
+             {"fail_by": "exc", "exc": [{"k": "real", "how": "gather"}]}, {"fail_by": "exc", "exc": [{"k": "real", "how": "wait_result_sent"}]},
+             {"fail_by": "exc", "exc": [cancelled]}, {"fail_by": "exc", "exc": [{"k": "builtin", "name": "KeyboardInterrupt"}], "fn": "sync"},
+             {"fail_by": "exc", "exc": [{"k": "builtin", "name": "KeyError"}, cancelled], "pause": "sleep0"},
+             {"propagate": False}, {"validate": False}, {"A": 1}, {"A": 0}, {"stored": 1}, {"stored": -1}, {"startup": True},
+             {"bystanders": 2}, {"bystanders": 3, "startup": True, "pause": "timer"},
+             {"mw_before": ["async_err"]}, {"mw_mid": ["async_err", "subst"]}, {"mw_after": ["touch"]}, {"mw_after": ["hooks", "sync_err"]},
+             {"mw_before": ["copy"], "mw_after": ["post_save_raises"], "retry_cls": "sub"}, {"retry_cls": "sub"},
+             {"nr": {"k": "nr_sub"}}]
+    out = []
+    for i, e in enumerate(envs):
+        for b in (ffs_all, others[i % len(others)]):
+            out.append(with_env(dict(b, ser="pickle" if i % 6 == 5 else "json"), dict(e, broker="inmem")))
+    return out
+
+
 def with_env(case, env):
     """attach env to a copy of case; a failure by timeout needs the task's `timeout` label"""
     case = dict(case, labels=list(case["labels"]), env=env)
@@ -450,6 +564,10 @@ def gen_typed_case(r):
             c["outs"] = ["F"] * r.choice([1, 2, 3]) + c["outs"]
     k = r.random()
     env = gen_env(r) if k < .35 else {"validate": False} if k < .45 else {}
+    if r.random() < .08:
+        env = gen_inmem_env(r)                      # the attempts travel through the real InMemoryBroker
+        if r.random() < .6:
+            c["mw"]["nror"] = False
     if env.get("fn") == "dep_fails":
         env["fn"] = "gen_dep"
     if c["ser"] == "json" and r.random() < .15:
@@ -475,6 +593,9 @@ def typed_grid():
             out.append(dict(base, typed=t, env={"validate": False}))
         if i % 7 == 0:
             out.append(dict(base, typed=t, env={"fmt": "json", "fn": "sync"}))
+        if i % 9 == 0:
+            out.append(dict(base, typed=t, mw=dict(count=2, label=False, nror=i % 2 == 1),
+                            env={"broker": "inmem", **({"pause": "sleep0"} if i % 27 == 0 else {})}))
     return out
 
 
@@ -555,12 +676,17 @@ def count_env(rep, c, o):
         rep.count("env:none (default worker: Receiver.callback, propagate on, bytes message)")
         return
     rep.count("env:cases")
+    rep.count("env:broker=" + ("real InMemoryBroker (kick spawns / awaits the callback itself)" if env.get("broker") == "inmem"
+                               else "scripted (the harness delivers one kicked message after the other)"))
+    if env.get("broker") == "inmem":
+        count_inmem(rep, c, o)
     rep.count("env:configured-via=" + ("command line" if env.get("cli") is not None else "Receiver(...)"))
     rep.count("env:propagate_exceptions=%s" % env.get("propagate", True))
     rep.count("env:validate_params=%s" % env.get("validate", True))
     rep.count("env:ack_type=%s" % env.get("ack"))
     rep.count("env:message=" + ("bytes" if not env.get("ackable") else "ackable/%s-ack" % env["ackable"]))
-    rep.count("env:delivery=" + ("listen() session" if env.get("via") == "listen" else "callback"))
+    rep.count("env:delivery=" + ("InMemoryBroker.kick" if env.get("broker") == "inmem" else
+                                 "listen() session" if env.get("via") == "listen" else "callback"))
     rep.count("env:max_async_tasks=%s" % (env["A"] if "A" in env else "default"))
     rep.count("env:task-function=" + env.get("fn", "async"))
     rep.count("env:failure-by=" + env.get("fail_by", "raise"))
@@ -576,6 +702,41 @@ def count_env(rep, c, o):
     if len(o.get("execs", [])) > 1:
         rep.count("env:cases-with-a-re-send")
     count_exc(rep, c, o)
+
+
+def body_suspends(env):
+    """pure data: does the task body suspend before it acts?"""
+    if env.get("fn") in ("sync", "sync_gen_dep"):
+        return "plain function in a pool thread"
+    if env.get("pause"):
+        return "coroutine function that really awaits (%s)" % env["pause"]
+    return "coroutine function without a suspension point of its own (pure computation / immediate raise)"
+
+
+def count_inmem(rep, c, o):
+    env = c["env"]
+    st = o.get("settled") or {}
+    ex = o.get("execs", [])
+    rep.count("inmem:cases")
+    rep.count("inmem:mode=" + ("await_inplace" if env.get("inplace") else "default (callback spawned as a task by kick)"))
+    rep.count("inmem:body=" + body_suspends(env))
+    rep.count("inmem:task-function=" + env.get("fn", "async"))
+    rep.count("inmem:failure-by=" + env.get("fail_by", "raise"))
+    rep.count("inmem:no_result_on_retry=%s" % c["mw"]["nror"])
+    rep.count("inmem:set_result-calls-for-the-id=%d" % len(st.get("save_order", [])))
+    rep.count("inmem:bystander-tasks=%d" % (env.get("bystanders") or 0))
+    rep.count("inmem:startup/shutdown=%s" % bool(env.get("startup")))
+    rep.count("inmem:max_stored_results=%s" % env.get("stored", "default"))
+    rep.count("inmem:sync_tasks_pool_size=%s" % env.get("pool", "default"))
+    rep.count("inmem:typed-arguments=%s" % (c.get("typed") is not None))
+    if st.get("held"):
+        rep.count("inmem:held-result-identified-by=" + str(st.get("by")))
+    if len(ex) > 1:
+        rep.count("inmem:cases-with-a-re-send")
+        if in_domain(c) is not None and c["outs"][min(len(ex) - 1, len(c["outs"]) - 1)] != "N":
+            rep.count("inmem:cases-with-a-re-send-whose-held-result-is-judged")
+            if not c["mw"]["nror"]:
+                rep.count("inmem:cases-with-a-re-send,every-attempt-storing,held-result-judged:body=" + body_suspends(env))
 
 
 def exc_label(sp):
@@ -713,6 +874,11 @@ def oracle(case, obs, fail):
         got = L9.canon_map({k: v for k, v in L9.as_map(e["labels"]).items() if k not in others}, drop=("_retries",))
         if got != want:
             fail("execution %d saw other user labels than the ones sent" % i, sorted(got.items()), sorted(want.items()))
+    st = obs.get("settled")
+    if "settled" in obs and (st is None or not st["quiet"] or st["pending"] or obs.get("unfinished")):
+        # (in-memory path) nothing can be read off a broker that is still working: never a silent pass
+        fail("the work spawned by the in-memory broker never settled", dict(settled=st, unfinished=obs.get("unfinished")), "all deliveries over")
+        return
     if dom is None:
         return
     enabled, m = dom
@@ -747,6 +913,14 @@ def oracle(case, obs, fail):
             if (e["stored"], e["is_err"] if e["stored"] else None) != want_st:
                 fail("the final attempt's outcome is not the stored result", dict(out=o, stored=e["stored"], is_err=e["is_err"]),
                      dict(stored=want_st[0], is_err=want_st[1]))
+            elif st is not None and o != "N" and not (st["held"] and i in st.get("held_from", [])):
+                # (in-memory path) the final attempt stored its outcome - but is that what the backend HOLDS for the task id
+                # now that everything has settled?  (no claim when the final attempt signalled no-result: it stores nothing)
+                fail("the result the backend holds for the task id when everything has settled is not the final attempt's outcome "
+                     "(an earlier attempt's set_result came after the final attempt's)",
+                     dict(held=st["held"], held_result_saved_by_attempt=st.get("held_from"), held_is_err=st.get("held_is_err"),
+                          held_exc=st.get("held_exc"), set_result_order=st["save_order"]),
+                     dict(held_result_saved_by_attempt=[i], is_err=want_st[1]))
 
 
 # ------------------------------------------------------------------ Coq side
@@ -899,14 +1073,16 @@ def run(ctx):
     broken = explore(ctx, rep, [gen_case(r) for _ in range(ctx.n(1500, 40000))], "main") or broken
     re_ = ctx.sub_rng("env")
     exception_info(ctx, rep)
-    broken = explore(ctx, rep, env_grid() + exc_grid() + [gen_env_case(re_) for _ in range(ctx.n(400, 12000))], "env") or broken
+    ri = ctx.sub_rng("inmem")
+    broken = explore(ctx, rep, env_grid() + exc_grid() + inmem_grid() + [gen_env_case(re_) for _ in range(ctx.n(400, 12000))]
+                     + [gen_inmem_case(ri) for _ in range(ctx.n(150, 4500))], "env") or broken
     rt = ctx.sub_rng("typed")
     broken = explore(ctx, rep, typed_grid() + [gen_typed_case(rt) for _ in range(ctx.n(300, 9000))], "typed") or broken
     known_alias(ctx, rep)
     if (broken or any(not o["ok"] for o in rep.obligations)) and not [f for f in rep.failures if not is_alias(f)]:
         r2 = ctx.sub_rng("search")
-        explore(ctx, rep, [gen_env_case(r2) if i % 4 == 3 else gen_typed_case(r2) if i % 4 == 1 else gen_case(r2)
-                           for i in range(ctx.n(6000, 60000))], "search")
+        explore(ctx, rep, [gen_inmem_case(r2) if i % 8 == 7 else gen_env_case(r2) if i % 4 == 3 else gen_typed_case(r2) if i % 4 == 1
+                           else gen_case(r2) for i in range(ctx.n(6000, 60000))], "search")
     return rep.finish({"alias_field_lost": is_alias})
 
 
@@ -951,6 +1127,10 @@ def replay(ctx, path):
         if c.get("typed") is not None:
             print("   received arguments:", json.dumps(e["args"][1] if e["args"] else e["args"], sort_keys=True)[:1500])
     print("statement domain (enabled, max_retries):", in_domain(c))
+    if "settled" in o:
+        print("in-memory broker: every delivery settled:", bool(o["settled"] and o["settled"]["quiet"]), "| set_result calls for the id, by attempt:",
+              (o["settled"] or {}).get("save_order"), "| the backend now holds:", json.dumps({k: (o["settled"] or {}).get(k) for k in
+              ("held", "held_from", "by", "held_is_err", "held_exc")}), "| body:", body_suspends(c.get("env") or {}))
     if o.get("raised_log"):
         print("exceptions raised by the attempts (chosen by the case, env['exc'] / env['nr']):",
               json.dumps([[exc_label(e["spec"]) if e["spec"].get("k") not in NR_KINDS else "no-result signal " + e["spec"]["k"],
